@@ -3,3 +3,5 @@ import RosuModel.Model.Num
 import RosuModel.Model.Utf
 import RosuModel.Model.Reader
 import RosuModel.Model.Framing
+import RosuModel.Model.DriverCmds
+import RosuModel.Props.C05
